@@ -205,6 +205,17 @@ def run(chk):
         else:
             ax = ["Z_axis", "Y_axis", "X_axis"][int(rng.integers(0, 3))]
             P = {"center_x": dy(rng, -3, 3), "center_y": dy(rng, -3, 3), "center_z": dy(rng, -3, 3), "radius": dy(rng, 1, 5), "height": dy(rng, 0, 8), "axis": ax}
+            if rng.random() < 0.5:
+                # a sensor exactly ON an end cap (and on the axis, so well within the radius): both caps of all three axes are closed
+                j_ = int(rng.integers(0, n))
+                a_ = {"X_axis": 0, "Y_axis": 1, "Z_axis": 2}[ax]
+                upper_ = bool(rng.random() < 0.5)
+                c_axis = pts[j_][a_] - float(P["height"]) / 2 if upper_ else pts[j_][a_] + float(P["height"]) / 2
+                if j_ not in nan_rows and (not INT_PARAMS[0] or float(c_axis).is_integer()):
+                    for t_, nm_ in enumerate(("center_x", "center_y", "center_z")):
+                        v_ = c_axis if t_ == a_ else pts[j_][t_]
+                        P[nm_] = int(v_) if INT_PARAMS[0] else float(v_)
+                    chk.count("cylinder:sensor-on-" + ("upper" if upper_ else "lower") + "-cap:" + ax)
             mk = lambda l: Cylinder(P["center_x"], P["center_y"], P["center_z"], P["radius"], P["height"], loc=l, axis=ax, data=ctor_data, **kw)
             cx, cy, cz, r_, h_ = (fr(P[k]) for k in ("center_x", "center_y", "center_z", "radius", "height"))
             inside = []
